@@ -27,6 +27,7 @@ public:
 	size_t size() const { return n_; }
 	size_t draws() const { return draws_; }
 
+	uint8_t peek() const { return pos_ < n_ ? p_[pos_] : 0; }
 	uint8_t u8() {
 		++draws_;
 		return pos_ < n_ ? p_[pos_++] : 0;
